@@ -161,6 +161,14 @@ inline sonic_json::JsonPointer to_json_pointer(const std::vector<model::PathElem
 template <class N>
 void walk(const N& n, std::string& out, int depth = 0) {
   if (depth > 300) violate("model", "walk", "nesting deeper than anything the plan built");
+  {  // the kind tests partition the nodes
+    int kinds = (int)n.IsNull() + (int)n.IsBool() + (int)n.IsNumber() + (int)n.IsString() + (int)n.IsArray() + (int)n.IsObject() + (int)n.IsRaw();
+    if (kinds != 1) violate("model", "walk", "a node answers true to " + std::to_string(kinds) + " of the kind tests IsNull/IsBool/IsNumber/IsString/IsArray/IsObject/IsRaw");
+    if (n.IsContainer() != (n.IsArray() || n.IsObject())) violate("model", "walk", "IsContainer() disagrees with IsArray()/IsObject()");
+    if (n.IsStringConst() && !n.IsString()) violate("model", "walk", "IsStringConst() on a node that is not a string");
+    if ((n.IsTrue() || n.IsFalse()) != n.IsBool()) violate("model", "walk", "IsTrue/IsFalse disagree with IsBool");
+    if ((n.IsDouble() || n.IsUint64() || n.IsInt64()) != n.IsNumber()) violate("model", "walk", "IsDouble/IsUint64/IsInt64 disagree with IsNumber");
+  }
   if (n.IsNull()) { out += 'n'; return; }
   if (n.IsBool()) {
     bool v = n.GetBool();
@@ -186,6 +194,7 @@ void walk(const N& n, std::string& out, int depth = 0) {
     sonic_json::StringView sv = n.GetStringView();
     if (sv.size() != n.Size()) violate("model", "walk", "string Size() != view size");
     if (n.Empty() != (sv.size() == 0)) violate("model", "walk", "string Empty() wrong");
+    if (sv.size() <= 32) { std::string cp = n.GetString(); if (cp.size() != sv.size() || memcmp(cp.data(), sv.data(), sv.size()) != 0) violate("model", "walk", "GetString() differs from GetStringView()"); }
     out += 's'; model::put_u64(out, sv.size()); out += ':'; out.append(sv.data(), sv.size()); return;
   }
   if (n.IsArray()) {
@@ -194,6 +203,7 @@ void walk(const N& n, std::string& out, int depth = 0) {
     if (n.Empty() != (sz == 0)) violate("model", "walk", "array Empty() wrong");
     if (n.Capacity() < sz) violate("model", "walk", "array Capacity() < Size()");
     if ((size_t)(n.End() - n.Begin()) != sz) violate("model", "walk", "End()-Begin() != Size()");
+    if ((sz && (const void*)&*n.CBegin() != (const void*)&*n.Begin()) || (size_t)(n.CEnd() - n.CBegin()) != sz) violate("model", "walk", "CBegin()/CEnd() disagree with Begin()/End()");
     out += '[';
     size_t i = 0;
     for (auto it = n.Begin(); it != n.End(); ++it, ++i) {
@@ -210,6 +220,7 @@ void walk(const N& n, std::string& out, int depth = 0) {
     if (n.Empty() != (sz == 0)) violate("model", "walk", "object Empty() wrong");
     if (n.Capacity() < sz) violate("model", "walk", "object Capacity() < Size()");
     if ((size_t)(n.MemberEnd() - n.MemberBegin()) != sz) violate("model", "walk", "MemberEnd()-MemberBegin() != Size()");
+    if ((sz && (const void*)&*n.CMemberBegin() != (const void*)&*n.MemberBegin()) || (size_t)(n.CMemberEnd() - n.CMemberBegin()) != sz) violate("model", "walk", "CMemberBegin()/CMemberEnd() disagree with MemberBegin()/MemberEnd()");
     out += '{';
     size_t i = 0;
     for (auto it = n.MemberBegin(); it != n.MemberEnd(); ++it, ++i) {
@@ -222,6 +233,33 @@ void walk(const N& n, std::string& out, int depth = 0) {
   }
   if (n.IsRaw()) { out += "R"; auto r = n.GetRaw(); out.append(r.data(), r.size()); return; }
   out += "?type";
+}
+// a deep copy shares no owned memory with its source (C13): child arrays are distinct blocks, every string the
+// copy owns has its own bytes; only strings that are const views on both sides may alias caller memory
+template <class S, class D>
+void check_copy_independent(const S& src, const D& dst, bool copy_str, int depth = 0) {
+  if (depth > 300) return;
+  if (src.IsString() && dst.IsString()) {
+    bool sc = src.IsStringConst(), dc = dst.IsStringConst();
+    if (copy_str && dc) violate("model", "copy:const_kept", "CopyFrom(copyString=true) left a const (not owned) string in the copy");
+    if (!copy_str && sc != dc) violate("model", "copy:constness", "CopyFrom(copyString=false) changed the ownership kind of a string (source const=" + std::to_string(sc) + ", copy const=" + std::to_string(dc) + ")");
+    const void* a = src.GetStringView().data(); const void* b = dst.GetStringView().data();
+    if (!dc && a == b && src.Size() > 0) violate("model", "copy:shared_string", "a string owned by the copy has the same bytes address as the source's string");
+    if (dc && !copy_str && a != b) violate("model", "copy:const_moved", "a const string view changed its address in the copy");
+    return;
+  }
+  if (src.IsArray() && dst.IsArray() && src.Size() == dst.Size()) {
+    if (src.Size() && (const void*)&*src.Begin() == (const void*)&*dst.Begin()) violate("model", "copy:shared_children", "copy and source array share one element block");
+    auto a = src.Begin(); auto b = dst.Begin();
+    for (; a != src.End(); ++a, ++b) check_copy_independent(*a, *b, copy_str, depth + 1);
+    return;
+  }
+  if (src.IsObject() && dst.IsObject() && src.Size() == dst.Size()) {
+    if (src.Size() && (const void*)&*src.MemberBegin() == (const void*)&*dst.MemberBegin()) violate("model", "copy:shared_children", "copy and source object share one member block");
+    auto a = src.MemberBegin(); auto b = dst.MemberBegin();
+    for (; a != src.MemberEnd(); ++a, ++b) { check_copy_independent(a->name, b->name, copy_str, depth + 1); check_copy_independent(a->value, b->value, copy_str, depth + 1); }
+    return;
+  }
 }
 template <class N>
 std::string walk_str(const N& n) { std::string s; walk(n, s); return s; }
